@@ -9,6 +9,7 @@ import RedoModel.TokensWire
 import RedoModel.SqlTxnWire
 import RedoModel.LocksWire
 import RedoModel.OnceWire
+import RedoModel.WaitsWire
 open RedoModel RedoModel.Wire
 
 def decList (s : String) : Option (List (List Char)) :=
@@ -128,6 +129,7 @@ def respond (line : String) : String :=
   | ["sqltxn-replay", evs] => SqlTxnWire.respond evs
   | ["locks-replay", evs] => LocksWire.respond evs
   | ["once-replay", evs] => OnceWire.respond evs
+  | ["waits-replay", reach, evs] => WaitsWire.respond reach evs
   | _ => "bad-op"
 
 partial def loop (h : IO.FS.Stream) (out : IO.FS.Stream) : IO Unit := do
